@@ -89,7 +89,7 @@ func traceFields(o opts) error {
 			hasTag            bool
 		}
 		var descs []fdesc
-		names := []string{"alpha", "beta", "db/pass", "j", "k"}
+		names := []string{"alpha", "beta", "db/pass", "j", "k", "json"}
 		usedEmb := false
 		for i := 0; i < nf; i++ {
 			fk := pick(r, fieldMenu)
